@@ -72,6 +72,10 @@ pub fn judge(op: Op, a: [f64; 2], b: [f64; 2]) -> (Verdict, Res) {
         0 => {
             let w = r.dd();
             if ok_result(w) {
+                // "valid ... i.e. is_valid()": the library's own predicate must say so too
+                if w[0].is_finite() && !st::mk(w).is_valid() {
+                    return (Verdict::fail("is_valid_agrees", op.name(), &args, format!("{} is normalised but is_valid() == false", show_dd(w)), "is_valid() == true".into(), "is_valid_false"), r);
+                }
                 (Verdict::Pass, r)
             } else {
                 (bad(w), r)
@@ -335,6 +339,24 @@ pub fn run(r: &mut Runner) {
                 let x = [h, lo * (1.0 + h.abs())];
                 if dd_valid_fast(x[0], x[1]) {
                     xs.push(x);
+                }
+            }
+        }
+        // single set / single cleared fraction bit in the high word with low words at 1/4, 3/8, 1/2 ulp of either sign
+        // (operands on which a validity test with a one-bit mask slip goes wrong; neg/abs/min/max/... return them)
+        for e in [-900, -1, 0, 1, 53, 900] {
+            for p in 0..52 {
+                for f in [1u64 << p, ((1u64 << 52) - 1) ^ (1u64 << p)] {
+                    let h = tfref::alpha::mk_f64(false, e, f).unwrap();
+                    for m in [0.25, 0.375, 0.5] {
+                        for s in [1.0, -1.0] {
+                            let lo = s * m * 2f64.powi(e - 52);
+                            if dd_valid_fast(h, lo) {
+                                xs.push([h, lo]);
+                                xs.push([-h, -lo]);
+                            }
+                        }
+                    }
                 }
             }
         }
